@@ -16,11 +16,11 @@ GOENV = dict(os.environ, GOFLAGS='-mod=mod', GOPROXY='off', GOSUMDB='off', GOTOO
 NCPU = os.cpu_count() or 4
 
 
-def run(cmd, cwd=None, env=None, stdin=None, timeout=None, stdout=subprocess.PIPE):
-    """returns (rc, stdout+stderr text); rc = -9 on timeout"""
+def run(cmd, cwd=None, env=None, stdin=None, timeout=None, stdout=subprocess.PIPE, stderr=subprocess.STDOUT):
+    """returns (rc, stdout(+stderr) text); rc = -9 on timeout"""
     try:
         p = subprocess.run(cmd, cwd=cwd, env=env, input=stdin, stdout=stdout,
-                           stderr=subprocess.STDOUT, timeout=timeout)
+                           stderr=stderr, timeout=timeout)
         return p.returncode, (p.stdout.decode('utf-8', 'replace') if p.stdout else '')
     except subprocess.TimeoutExpired as e:
         out = e.stdout.decode('utf-8', 'replace') if e.stdout else ''
